@@ -21,9 +21,9 @@
                                        dependent, removing it leaves full rank, #named = defect = n − rank A, and every
                                        named index IS an element of `unknowns_`
     C20_reported_excludes_removed_of_project_equations  (`NoSingular` on every configuration)
-  svd: `obsNet .svd` is defined and tied to `netSolve .svd` (`C20_obsNet_reads_netSolve`); `Sound` is FALSE for it
-  (F7-svd, `C20_svd_not_sound`), the composed verdict theorem (`Counted` from `C20_svd_decompose_sound_partial` on
-  `dotProblem np hh`, transported by `ker_whiten`) is not written — see notes/reports/C20.md Round 7.
+    C20_adjusted_sound_svd_of_project_equations         the verdict theorem for the svd object (`SvdWorldHyp`: the run of
+                                       `SVD::svd()` returns, singular values unambiguous); `Sound` is FALSE for svd
+                                       (F7-svd, `C20_svd_not_sound`) — only `Counted`, rank, answered ⇒ resolves survive
 
   Hypotheses that remain (`Net.NetHyp alg np`, asked of the problem of EVERY configuration the loop can visit):
   `RowsOK` (= `NoAlias`), `m0 ≠ 0`, the covariance matrix invertible, the algorithm's rank decisions unambiguous at both
@@ -193,6 +193,35 @@ theorem C20_reported_excludes_removed_of_project_equations (halg : alg ≠ .svd)
     (fun P => (linO P).n) (peWorld_hdim t base hds)
     (fun dnet => (peWorld_obsNet_sound t base alg halg hH dnet).counted) net hnd
 
+/-- **C20_adjusted_sound for `LocalNetwork` + svd**: the verdict theorem with the svd object behind `netSolve .svd`;
+    premise per configuration: the run of `SVD::svd()` on the homogenised matrix returns and its singular values
+    are unambiguous at `W_tol` (`SvdWorldHyp`; `C02_net_svd_hyp_decompose` turns that into `Net.SolverHyp .svd`).
+    Only the verdict: what the svd object NAMES is not dependent in general (F7-svd, `C20_svd_not_sound`). -/
+theorem C20_adjusted_sound_svd_of_project_equations (hds : DirFromStation base) (hH : SvdWorldHyp t base)
+    (net : NetDecision.Net) (d : Nat)
+    (h : (NetDecision.decide m0 (worldOf (@peWorld K (trigOfField t) base) (obsNet .svd)) net).2 = .adjusted d) :
+    ∃ n0,
+      (∀ np0, (@peWorld K (trigOfField t) base n0).prob = some np0 →
+        (∃ a, netSolve .svd np0 = .ok a ∧ a.defect = d) ∧
+        Resolves (toProblem np0).A (toProblem np0).S ∧ d + (toProblem np0).A.rank = np0.n) ∧
+      ((@peWorld K (trigOfField t) base n0).prob = none → d = 0) ∧
+      (@peWorld K (trigOfField t) base n0).net =
+        (generalParameters ((worldOf (@peWorld K (trigOfField t) base) (obsNet .svd)).abs m0)
+          (fuelFor net) (fuelFor net) (St.init net)).1.net ∧
+      d ≤ minN (@peWorld K (trigOfField t) base n0).unknowns (@peWorld K (trigOfField t) base n0).net := by
+  obtain ⟨n0, h1, h2, h3, h4⟩ := C20_adjusted_sound_solver _ (obsNet .svd) m0 big_field_chol
+    (fun P => (linO P).n) (peWorld_hdim t base hds) (peWorld_obsNet_svd_counted t base hH) net d h
+  refine ⟨n0, ?_, ?_, h3, h4⟩
+  · intro np0 hp
+    obtain ⟨-, p2, p3⟩ := svdWorldHyp_partial t base hH n0 np0 hp
+    rw [hp] at h1 h2
+    obtain ⟨-, t2, t3⟩ := obsNet_tie .svd np0
+    obtain ⟨a, ha⟩ := t3 h1
+    exact ⟨⟨a, ha, by rw [← (t2 a ha).2.1]; exact h2⟩, p3 h1, by rw [← h2]; exact p2⟩
+  · intro hp
+    rw [hp] at h2
+    exact h2.symm
+
 end field
 
 -- ------------------------------------------------------------------ non-vacuity: the executed models on a network
@@ -253,6 +282,11 @@ example : NetDecision.decide (1 : ℚ) (worldOf qPE (obsNet .env)) exCfg = ([("P
     ∧ sysOf (qPE exCfg) = some ([[(2, 0), (1, 1)], [(3, 1)]], [0, 0])
     ∧ sysOf (qPE exCfg2) = some ([[(1, 1)]], [0]) :=
   ⟨ex_decide_env, ex_decide_gso, ex_first.2.2.2.2, ex_second.2.2⟩
+
+/-- the conclusion of `C20_adjusted_sound_svd_of_project_equations` on the same network (kernel evaluation): verdict
+    `adjusted 0`, and on the final configuration `netSolve .svd` answered with defect 0 -/
+example : NetDecision.decide (1 : ℚ) (worldOf qPE (obsNet .svd)) exCfg = ([("P", .singular_xy)], .adjusted 0)
+    ∧ solveOf .svd (qPE exCfg2) = some (.ok 0) := ⟨ex_decide_svd, ex_second_svd.1⟩
 
 end examples
 
